@@ -4,6 +4,8 @@ use super::{catch, infl};
 pub fn dispatch(req: &Value) -> Value {
     match req["op"].as_str().unwrap_or("") {
         "inflection" => inflection(req),
+        "absolute" => absolute(req),
+        "import_path" => import_path(req),
         other => json!({"error": format!("unknown op {other}")}),
     }
 }
@@ -24,4 +26,67 @@ fn inflection(req: &Value) -> Value {
         (Err(_), _) => false,         // ts-rs panicked (C16)
     };
     json!({"actual": actual.clone().ok(), "panic": actual.err(), "expected": expected.clone().ok(), "serde_panics": expected.is_err(), "agree": agree})
+}
+
+use std::path::{Component, Path, PathBuf};
+
+/// Property-level oracle for C08/C17: lexical normalisation where `..` may only remove a normal component.
+fn norm(p: &Path) -> Option<PathBuf> {
+    let mut out: Vec<Component> = vec![];
+    for c in p.components() {
+        match c {
+            Component::CurDir => {}
+            Component::ParentDir => match out.last() {
+                Some(Component::Normal(_)) => { out.pop(); }
+                _ => return None,
+            },
+            c => out.push(c),
+        }
+    }
+    Some(out.iter().collect())
+}
+
+/// C17/C08: path::absolute(p) vs norm(cwd.join(p)); Err(CannotBeExported) iff the path climbs above the root.
+fn absolute(req: &Value) -> Value {
+    let p = PathBuf::from(req["path"].as_str().unwrap());
+    let cwd = std::env::current_dir().unwrap();
+    let expected = norm(&cwd.join(&p));
+    let p2 = p.clone();
+    let actual = catch(move || ts_rs::__verif::absolute(&p2).map_err(|e| format!("{e:?}")));
+    let agree = match (&actual, &expected) {
+        (Ok(Ok(a)), Some(e)) => a == e,
+        (Ok(Err(_)), None) => true,
+        _ => false,
+    };
+    json!({"cwd": cwd, "actual": format!("{:?}", actual), "expected": format!("{:?}", expected), "agree": agree,
+           "panic": actual.as_ref().err()})
+}
+
+/// C08: the specifier, resolved against dir(from), must denote `import`.
+fn import_path(req: &Value) -> Value {
+    let from = PathBuf::from(req["from"].as_str().unwrap());
+    let import = PathBuf::from(req["import"].as_str().unwrap());
+    let esm = cfg!(feature = "import-esm");
+    let (f2, i2) = (from.clone(), import.clone());
+    let actual = catch(move || ts_rs::__verif::import_path(&f2, &i2).map_err(|e| format!("{e:?}")));
+    let cwd = std::env::current_dir().unwrap();
+    let want = norm(&cwd.join(&import));
+    let mut notes = vec![];
+    let mut agree = true;
+    match &actual {
+        Ok(Ok(s)) => {
+            if !(s.starts_with("./") || s.starts_with("../")) { agree = false; notes.push("not relative"); }
+            if s.contains('\\') { agree = false; notes.push("backslash"); }
+            if s.ends_with(".ts") { agree = false; notes.push("carries .ts"); }
+            if s.ends_with(".js") != esm { agree = false; notes.push("js suffix vs import-esm"); }
+            let stem = if esm { s.strip_suffix(".js").unwrap_or(s) } else { s.as_str() };
+            let file = format!("{stem}.ts");
+            let dir = cwd.join(&from).parent().map(|p| p.to_path_buf()).unwrap_or_default();
+            let resolved = norm(&dir.join(&file));
+            if resolved != want || want.is_none() { agree = false; notes.push("does not resolve to the dependency's file"); }
+            json!({"actual": s, "resolved": format!("{:?}", resolved), "expected_file": format!("{:?}", want), "agree": agree, "notes": notes})
+        }
+        Ok(Err(e)) => json!({"actual_err": e, "expected_file": format!("{:?}", want), "agree": want.is_none() || norm(&cwd.join(&from)).is_none()}),
+        Err(p) => json!({"panic": p, "agree": false}),
+    }
 }
